@@ -22,4 +22,10 @@ def unblocked (buffers : List Nat) (sid : Option Nat) : List Nat :=
 /-- the streams whose sendable amount `min(stream window, connection window)` the event can have raised -/
 def benefits (sid : Option Nat) (j : Nat) : Bool := sid == none || sid == some 0 || sid == some j
 
+/-! ### how a stream is ended (`H2Protocol._end_stream`, called by `_send_data` once the buffer is complete and empty)
+
+`stream_send(Trailers)` only appends to the stream buffer's `trailers` (`ReqGlue.trailersBranchCalls`); the send task ends the
+stream with the h2 calls of `_end_stream`: `n` = number of pending trailer fields. -/
+def endCalls (n : Nat) : List String := if ReqGlue.endStreamTest n then ReqGlue.endWithTrailers else ReqGlue.endWithoutTrailers
+
 end HC.Proto.H2Window
